@@ -368,6 +368,116 @@ theorem C14_zero_disables (c : Cfg) (font : Font) :
   · intro lk lm g rs h
     simp [applyGlyph, h]
 
+/-! ## lookups shared between features (collect_lookup_stages) -/
+
+/-- A lookup referenced by several features of one stage (salt/ss01, ljmo/vjmo/tjmo, a default-on feature and a user
+    feature, the required feature and any other, …) is kept ONCE, and the mask of the kept entry is the UNION of the
+    masks of the referencing features — the global bit for the required feature.  For every font, every table, every
+    list of map entries and every stage, the lookups the stage appends to the map
+    (a) are strictly increasing in the lookup index (one entry per index),
+    (b) are exactly the indices some feature of the stage (or the required feature) references,
+    (c) have bit `k` in their mask iff a referencing feature has bit `k` in its mask, hence
+    (d) act on a glyph (`glyph_mask & lookup_mask ≠ 0`, ot_layout.rs::apply_forward) iff ANY referencing feature is
+        on for that glyph.  (With `&=` in place of `|=` in the merge loop the kept mask is the intersection: a lookup
+        shared by two features with different bits never fires — seeds C14c / C12c; the map-compile correspondence
+        ties this model to the crate.) -/
+theorem C14_shared_lookup_mask_union (c : Cfg) (font : Font) (t : Nat) (feats : List FMap) (reqStage : Nat)
+    (pauses : List Nat) (st : StageState) (stage : Nat) :
+    ∃ added : List LMap,
+      (stageStep c font t feats reqStage pauses st stage).lookups = st.lookups ++ added ∧
+      added.Pairwise (fun a b => a.index < b.index) ∧
+      (∀ i, (RequiredRefs font t reqStage stage i ∨ ∃ f ∈ feats, FeatureRefs font t stage f i) ↔
+          ∃ m ∈ added, m.index = i) ∧
+      ∀ m ∈ added,
+        (∀ k, m.mask.testBit k = true ↔
+          (RequiredRefs font t reqStage stage m.index ∧ c.globalBit.testBit k = true) ∨
+          ∃ f ∈ feats, FeatureRefs font t stage f m.index ∧ f.mask.testBit k = true) ∧
+        (∀ gmask, gmask &&& m.mask ≠ 0 ↔
+          (RequiredRefs font t reqStage stage m.index ∧ gmask &&& c.globalBit ≠ 0) ∨
+          ∃ f ∈ feats, FeatureRefs font t stage f m.index ∧ gmask &&& f.mask ≠ 0) := by
+  obtain ⟨hpw, hmask, _, hsurv⟩ := sortMergeTail_spec (stageTail c font t feats reqStage stage)
+  -- membership in the unsorted tail, in terms of the referencing features
+  have hmem : ∀ l : LMap, l ∈ stageTail c font t feats reqStage stage ↔
+      (RequiredRefs font t reqStage stage l.index ∧ l = ⟨l.index, true, true, false, c.globalBit, false⟩) ∨
+      ∃ f ∈ feats, FeatureRefs font t stage f l.index ∧
+        l = ⟨l.index, f.autoZwnj, f.autoZwj, f.random, f.mask, f.perSyllable⟩ := by
+    intro l
+    unfold stageTail
+    rw [List.mem_append, List.mem_flatMap, mem_stageReqLookups]
+    constructor
+    · rintro (h | ⟨f, hf, h⟩)
+      · exact Or.inl h
+      · exact Or.inr ⟨f, hf, mem_stageFeatLookups.1 h⟩
+    · rintro (h | ⟨f, hf, h⟩)
+      · exact Or.inl h
+      · exact Or.inr ⟨f, hf, mem_stageFeatLookups.2 h⟩
+  have hbits : ∀ m ∈ sortMergeTail (stageTail c font t feats reqStage stage), ∀ k, m.mask.testBit k = true ↔
+      (RequiredRefs font t reqStage stage m.index ∧ c.globalBit.testBit k = true) ∨
+      ∃ f ∈ feats, FeatureRefs font t stage f m.index ∧ f.mask.testBit k = true := by
+    intro m hm k
+    rw [hmask m hm k]
+    constructor
+    · rintro ⟨l, hl, hidx, hb⟩
+      rcases (hmem l).1 hl with ⟨hr, he⟩ | ⟨f, hf, hr, he⟩
+      · refine Or.inl ⟨hidx ▸ hr, ?_⟩
+        rw [he] at hb; exact hb
+      · refine Or.inr ⟨f, hf, hidx ▸ hr, ?_⟩
+        rw [he] at hb; exact hb
+    · rintro (⟨hr, hb⟩ | ⟨f, hf, hr, hb⟩)
+      · exact ⟨⟨m.index, true, true, false, c.globalBit, false⟩, (hmem _).2 (Or.inl ⟨hr, rfl⟩), rfl, hb⟩
+      · exact ⟨⟨m.index, f.autoZwnj, f.autoZwj, f.random, f.mask, f.perSyllable⟩,
+          (hmem _).2 (Or.inr ⟨f, hf, hr, rfl⟩), rfl, hb⟩
+  refine ⟨sortMergeTail (stageTail c font t feats reqStage stage), ?_, hpw, ?_, ?_⟩
+  · unfold stageStep
+    simp only []
+    split
+    · split <;> rfl
+    · rfl
+  · intro i
+    constructor
+    · rintro (hr | ⟨f, hf, hr⟩)
+      · exact hsurv ⟨i, true, true, false, c.globalBit, false⟩ ((hmem _).2 (Or.inl ⟨hr, rfl⟩))
+      · exact hsurv ⟨i, f.autoZwnj, f.autoZwj, f.random, f.mask, f.perSyllable⟩
+          ((hmem _).2 (Or.inr ⟨f, hf, hr, rfl⟩))
+    · rintro ⟨m, hm, rfl⟩
+      -- an entry of the merged list has an index of the tail: the merge never invents one
+      exact (sortMergeTail_index_from (stageTail c font t feats reqStage stage) m hm).elim (fun l hl =>
+        match (hmem l).1 hl.1 with
+        | Or.inl ⟨hr, _⟩ => Or.inl (hl.2 ▸ hr)
+        | Or.inr ⟨f, hf, hr, _⟩ => Or.inr ⟨f, hf, hl.2 ▸ hr⟩)
+  · intro m hm
+    refine ⟨hbits m hm, fun gmask => ?_⟩
+    rw [and_ne_zero_iff]
+    constructor
+    · rintro ⟨k, hg, hk⟩
+      rcases (hbits m hm k).1 hk with ⟨hr, hb⟩ | ⟨f, hf, hr, hb⟩
+      · exact Or.inl ⟨hr, (and_ne_zero_iff _ _).2 ⟨k, hg, hb⟩⟩
+      · exact Or.inr ⟨f, hf, hr, (and_ne_zero_iff _ _).2 ⟨k, hg, hb⟩⟩
+    · rintro (⟨hr, hne⟩ | ⟨f, hf, hr, hne⟩)
+      · obtain ⟨k, hg, hb⟩ := (and_ne_zero_iff _ _).1 hne
+        exact ⟨k, hg, (hbits m hm k).2 (Or.inl ⟨hr, hb⟩)⟩
+      · obtain ⟨k, hg, hb⟩ := (and_ne_zero_iff _ _).1 hne
+        exact ⟨k, hg, (hbits m hm k).2 (Or.inr ⟨f, hf, hr, hb⟩)⟩
+
+/-- the seed's shape in one line: `ss01` (bit 4) and `ss02` (bit 5) both reference lookup 0 and a third feature
+    references lookup 1 — the merge loop (on the sorted list) keeps one entry for lookup 0, mask = 16 ||| 32 (not
+    16 &&& 32 = 0). -/
+example : mergeLookups ⟨0, true, true, false, 16, false⟩ [⟨0, true, true, false, 32, false⟩,
+    ⟨1, true, true, false, 64, false⟩] = [⟨0, true, true, false, 48, false⟩, ⟨1, true, true, false, 64, false⟩] := by
+  decide
+
+/-- … and on the seed's font (GSUB only; `ss01` = feature 0 and `ss02` = feature 1 both list lookup 0): both map entries
+    reference lookup 0 in stage 0, and the unsorted stage tail holds it twice, once with each feature's mask. -/
+example :
+    let font : Font := ⟨fun t => t == 0, fun _ => none, fun _ => 1, fun _ _ => none, fun _ _ => none,
+      fun t fi => if t = 0 ∧ fi < 2 then some [0] else none⟩
+    let f1 : FMap := ⟨1, some 0, none, 0, 0, 4, 16, 16, true, true, false, false⟩
+    let f2 : FMap := ⟨2, some 1, none, 0, 0, 5, 32, 32, true, true, false, false⟩
+    FeatureRefs font 0 0 f1 0 ∧ FeatureRefs font 0 0 f2 0 ∧
+    stageTail genCfg font 0 [f1, f2] 0 0 = [⟨0, true, true, false, 16, false⟩, ⟨0, true, true, false, 32, false⟩] :=
+  ⟨⟨rfl, rfl, 0, [0], rfl, rfl, by simp, by decide⟩, ⟨rfl, rfl, 1, [0], rfl, rfl, by simp, by decide⟩,
+   by decide +kernel⟩
+
 /-! ## findings of this check, as counter-theorems about the model (replayed on the crate by the search) -/
 
 /-- finding `value-wraps-mod-256`: a value is NOT clamped to the feature's bit width; `2^b` (256 for the 8-bit cap)
@@ -419,5 +529,61 @@ theorem known_C14_global_bit_alias (c : Cfg) (j i : Info) (v : Nat) (g : Glyph) 
       fun _ _ => none⟩).2.2.2 lk lm _ rs (by rw [hlm]; exact hclr)
 
 example : genCfg.globalShift < 32 ∧ (⟨1, 1, 1, 1, 1, 0, 0⟩ : Info).flags &&& genCfg.fGlobal ≠ 0 := by decide
+
+/-- finding `shared-alternate-lookup` (alternate_set.rs: "This breaks badly if two features enabled this lookup together"):
+    when an ALTERNATE lookup is referenced by two features that own the bit fields `[sA, sA+bA)` and `[sB, sB+bB)` (A below
+    B), its mask is the union of both (`C14_shared_lookup_mask_union`) and the alternate index is read from that union
+    shifted by the LOWER field's shift: on a glyph where only B is on, with value `v`, the index is `v · 2^(sB-sA)`, not
+    `v` — `salt[0:1]=1, ss01[2:3]=1` on one alternate lookup picks alternate 2 at cluster 2.  Same in HarfBuzz. -/
+theorem known_C14_shared_alternate_index (sA bA sB bB v : Nat) (hA : 1 ≤ bA) (hAB : sA + bA ≤ sB) (hB : sB + bB ≤ 32)
+    (hv : v < 2 ^ bB) (h0 : v ≠ 0) :
+    altIndex (maskRange sA bA ||| maskRange sB bB) (v <<< sB) = v <<< (sB - sA) ∧
+    altIndex (maskRange sA bA ||| maskRange sB bB) (v <<< sB) ≠ v := by
+  have hlm : maskRange sA bA ||| maskRange sB bB < W32 := by
+    have h1 : maskRange sA bA < 2 ^ 32 := maskRange_lt sA bA 32 (by omega)
+    have h2 : maskRange sB bB < 2 ^ 32 := maskRange_lt sB bB 32 hB
+    exact Nat.or_lt_two_pow h1 h2
+  have hne : (maskRange sA bA ||| maskRange sB bB) % W32 ≠ 0 := by
+    rw [Nat.mod_eq_of_lt hlm]
+    intro hz
+    have : (maskRange sA bA ||| maskRange sB bB).testBit sA = true := by
+      rw [Nat.testBit_or, testBit_maskRange]; simp; omega
+    rw [hz, Nat.zero_testBit] at this
+    exact absurd this (by decide)
+  have htz : trailingZeros (maskRange sA bA ||| maskRange sB bB) = sA := by
+    unfold trailingZeros
+    simp only [hne, if_false]
+    apply trailingZeros_go_lowest sA 32 _ (by omega)
+    · intro k hk
+      rw [Nat.testBit_or, testBit_maskRange, testBit_maskRange]
+      have h1 : ¬ sA ≤ k := by omega
+      have h2 : ¬ sB ≤ k := by omega
+      simp [h1, h2]
+    · rw [Nat.testBit_or, testBit_maskRange]; simp; omega
+  have hidx : altIndex (maskRange sA bA ||| maskRange sB bB) (v <<< sB) = v <<< (sB - sA) := by
+    unfold altIndex
+    rw [htz]
+    apply Nat.eq_of_testBit_eq
+    intro j
+    simp only [Nat.testBit_shiftRight, Nat.testBit_and, Nat.testBit_or, testBit_maskRange, Nat.testBit_shiftLeft]
+    by_cases h1 : sB ≤ sA + j
+    · have e : sA + j - sB = j - (sB - sA) := by omega
+      have h2 : sB - sA ≤ j := by omega
+      by_cases h3 : sA + j < sB + bB
+      · simp [h1, h2, h3, e]
+      · have : v.testBit (j - (sB - sA)) = false := testBit_false_of_lt hv (by omega)
+        simp [h1, h2, e, this]
+    · have h2 : ¬ sB - sA ≤ j := by omega
+      simp [h1, h2]
+  refine ⟨hidx, ?_⟩
+  rw [hidx, Nat.shiftLeft_eq]
+  have hp : 2 ≤ 2 ^ (sB - sA) := by
+    have : 2 ^ 1 ≤ 2 ^ (sB - sA) := Nat.pow_le_pow_right (by decide) (by omega)
+    simpa using this
+  intro he
+  have : v * 2 ≤ v * 2 ^ (sB - sA) := Nat.mul_le_mul_left v hp
+  omega
+
+example : (1 : Nat) ≤ 1 ∧ 4 + 1 ≤ 5 ∧ 5 + 1 ≤ 32 ∧ (1 : Nat) < 2 ^ 1 ∧ (1 : Nat) ≠ 0 := by decide
 
 end RbModel.Props.C14
